@@ -94,6 +94,7 @@ SAFETY = ("INIT MCInit\nNEXT MCNext\nVIEW MCView\nCONSTRAINT Bounded\n"
           "INVARIANTS TypeOK AtMostOnce NoPanic NoUnderflow EmptyDomain MutexSane CallbackAfterGracePeriod BarrierAfterGracePeriod\n"
           "CHECK_DEADLOCK FALSE\n")
 TOUR = SAFETY + "ACTION_CONSTRAINT Emit\n"
+WITNESS = ("INIT MCInit\nNEXT MCNext\nVIEW MCView\nCONSTRAINT Bounded\nINVARIANTS NoCasRetryWitness\nCHECK_DEADLOCK FALSE\n")
 LIVE = ("SPECIFICATION FairSpec\nPROPERTIES EventuallyFired BarrierReturns\nCHECK_DEADLOCK FALSE\n")
 
 
@@ -157,6 +158,41 @@ def whole_call_stage(ctx):
                            artefact_lines=lines[a - 1:rj["line"]])
     finally:
         tlc.COMMON = old
+
+
+def witness_stage(ctx, binary):
+    """Rare-branch witnesses: TLC refutes "the CAS on the desired counter never fails short of its target" in QsImpl
+    (2 agents, 3 nodes, atomic-access granularity); the history of each shortest counterexample is a schedule that puts
+    the real code into that branch (three registrations around a period change, the other agent's CAS between this
+    agent's load and its CAS).  Each is replayed with the fair drain after it: every registered callback must run."""
+    c = cfg(ctx, "qs_witness.cfg", 2, 3, 1, 4, 8, "access", WITNESS, barrier="FALSE")
+    r = run_model(ctx, ctx.work, c, "cas-retry witness", workers=16, xmx="24g", timeout=1500)
+    ws = list(tlc.printed_tuples(r, "W"))
+    uniq = []
+    for w in ws:
+        if w not in uniq:
+            uniq.append(w)
+    ctx.cov["cas_retry_witness_schedules"] = len(uniq)
+    if not uniq:
+        ctx.notes.append("no CAS-retry witness found within the bounds (2 agents, 3 nodes, 4 calls each): branch not driven")
+        return
+    # finish the racing calls in both orders: the agent about to fail first, or the other one first
+    sel = []
+    for w in uniq:
+        last = w[-1]["a"]
+        other = 3 - last
+        for tail in ([other] * 4 + [last] * 4, [last] * 2 + [other] * 4, [other, last] * 4):
+            sel.append(w + [{"a": a, "op": "", "n": 0} for a in tail])
+    for h in sel:
+        ctx.count_history(["witness"] + h)
+    hp = os.path.join(ctx.work, "qs_witness.hist")
+    core.write_ndjson(hp, sel)
+    tp = os.path.join(ctx.work, "qs_witness.trace")
+    core.run_histories(binary, ["--agents", "2", "--nodes", "3", "--drainevery", "1"], hp, tp, len(sel))
+    retried = sum(1 for ln in open(tp) if ".casfail." in ln or '"casfail"' in ln)
+    ctx.cov["cas_retry_witness_replays"] = len(sel)
+    ctx.cov["cas_failures_observed_in_replays"] = retried
+    ctx.validate("QS", "QsTrace", "QsTrace.cfg", tp, "qs rare-branch witness schedules (CAS retry) + fair drain", keyfn=key)
 
 
 def run(ctx):
@@ -253,6 +289,7 @@ def run(ctx):
         ctx.cov["tour_histories_total"] = len(hists)
         ctx.cov["tour_histories_replayed"] = len(sel)
         ctx.validate("QS", "QsTrace", "QsTrace.cfg", tp2, "qs TLC schedules", keyfn=key)
+    witness_stage(ctx, binary)
     from props import witness
     witness.tsan_witness(ctx)
     # whole-operation protocol with an UNBOUNDED period counter (spec/Apalache/QsInd.tla): 4 agents, 3 nodes
